@@ -20,6 +20,27 @@
      linked_passes / plain_passes (TracerLinked.v)             the passes a BaseLinker makes of a (traced / plain) submodel through _evaluate
      reindex_cells / copy_cells / trace_t_cells (TracerReindex.v)  the object array `_trace` (cells = references or None) under reindex(), copy(), trace_t
      tracer_init (TracerSolve.v)                               TracerMixin.__init__ *)
+(* WHAT IS A CLAUSE OF THE PROPERTY AND WHAT IS ONLY A DESCRIPTION OF THE CODE (independent review, items 2-4):
+   - Clauses of C17: non-interference (C17_trace_noninterference_..., C17_noninterference_with_keywords, C17_linked_submodel_passes),
+     "tracing off writes nothing" (C17_trace_off_...), and, for the DEFAULT reset=False, the label / snapshot content
+     (C17_trace_shape_..., C17_solve_trace_shape_..., C17_trace_of_run, C17_trace_every_path, C17_trace_accumulates).
+   - NOT clauses of the property: the theorems about reset=True (C17_trace_reset_keeps_last_only, C17_trace_reset_every_path —
+     reset is handed to every trace_t call of a run, so only the last snapshot survives; the property text does not say what
+     a reset=True Trace holds, the docstring "replacing with the current results" can be read either way), about the public
+     snapshot methods, __init__, to_dataframe, reindex / copy and the linker.  They pin what the code does; only the
+     correspondence check K compares them with the implementation, the oracle does not judge them.  A repair that, say, resets
+     only at 'start' will therefore show up as a K disagreement ("no-failing-input-found"), not as an oracle violation.
+   - DOMAIN.  `trace=` is None, a bool, ONE name (a str of any length), or a list / tuple of names, as the property's quantifier
+     says; names are VARIABLES of the model.  Outside it and excluded (harness ASSUMPTIONS): a NumPy array of names (not a
+     Sequence: one element -> the default names are traced, more -> `if trace:` raises ValueError only when tracing) and other
+     non-Sequence iterables (set, generator: the defaults, mirrored as TFlag true); names that are container entries but not
+     variables ('status', 'iterations', the trace entry: accepted by the code, the snapshot array turns into strings / objects;
+     the model answers KeyError).
+   - EVERY theorem about `traces` (a list of Trace VALUES, one per period) presupposes that every period's cell of the object
+     array holds a Trace.  That is so after __init__ (C17_tracer_init), after copy() and for the kept periods after reindex()
+     (C17_copy_..., C17_reindex_gives_...), and trace_t keeps it so (C17_cells_refine_traces: on such an array the reference-level
+     trace_t_cells IS the value-level trace_t).  It is FALSE for the periods that are new after reindex() — they hold None:
+     finding, C17_reindex_new_period_raises — and no C17_trace_... theorem speaks about those. *)
 From Coq Require Import ZArith List Bool PrimFloat.
 Import ListNotations.
 Require Import PyBase Solver SolverFacts SolverF SolveAll Tracer TracerSolve TracerNames TracerLinked TracerReindex TracerFacts TracerFacts2 TracerFacts3 TracerFacts4 TracerF TracerExamples.
@@ -259,7 +280,8 @@ Section C17.
       = pushes num (names_of cfg (length (vals_of s)) a) reset (nth p tr (empty_trace num)) l.
   Proof. exact (fun H1 H2 H3 => trace_every_path num sub absf ltb isfin zero cfg a reset ev before after H1 H2 H3 d o t s tr p). Qed.
 
-  (* ... and with reset=True (handed to every trace_t call of the run) only the last snapshot survives *)
+  (* ... and with reset=True (handed to every trace_t call of the run) only the last snapshot survives.
+     [Describes the code; NOT a clause of the property, which constrains reset=False only — see the header.] *)
   Theorem C17_trace_reset_keeps_last_only cfg a d o t s (tr : traces num) p s' tr' :
     shape_pres num ev -> shape_pres num before -> shape_pres num after ->
     truthy a = true ->
@@ -269,7 +291,8 @@ Section C17.
     let names := names_of cfg (length (vals_of s)) a in
     nth p tr' (empty_trace num) = mkTrace names [LEnd] [snap num zero (vals_of s') t names].
   Proof. exact (fun H1 H2 H3 => trace_reset_keeps_last_only num sub absf ltb isfin zero cfg a ev before after H1 H2 H3 d o t s tr p s' tr'). Qed.
-  (* ... on EVERY path (exceptions included) reset=True leaves exactly ONE snapshot in the period's Trace — the last one
+  (* [Describes the code; not a clause of the property.]
+     ... on EVERY path (exceptions included) reset=True leaves exactly ONE snapshot in the period's Trace — the last one
      the run took — under the names of this call, whatever the Trace held before (no width guard needed) *)
   Theorem C17_trace_reset_every_path cfg a d o t s (tr : traces num) p :
     shape_pres num ev -> shape_pres num before -> shape_pres num after ->
@@ -495,6 +518,27 @@ Theorem C17_reindex_without_the_deepcopy_shared (num : Type) positions cells i q
   tderef num h' r <> old.
 Proof. exact (reindex_without_deepcopy_shared num positions cells i q r names lab res h c cs). Qed.
 
+(* THE STANDING ASSUMPTION OF EVERY THEOREM ABOUT `traces`, made explicit.  When every cell of the object array holds a
+   Trace object of its own (no None, no two periods sharing an object), the reference-level trace_t_cells seen at the level
+   of values IS Tracer.trace_t (its part after the values are gathered and the period located: trace_t_core), and the new
+   array again has a Trace of its own in every cell.  For a period whose cell is None (new after reindex) no such link
+   exists: C17_reindex_new_period_raises. *)
+Theorem C17_trace_t_is_its_core (num : Type) cfg t lab a reset (v : vals num) (tr : traces num) res p :
+  gather num v t (names_of cfg (length v) a) = inl res -> py_pos (length tr) t = Some p ->
+  trace_t num cfg t lab a reset v tr = trace_t_core num (names_of cfg (length v) a) reset p lab res tr.
+Proof. exact (trace_t_is_core num cfg t lab a reset v tr res p). Qed.
+
+Theorem C17_cells_refine_traces (num : Type) names reset p lab res cells (h : theap num) :
+  (forall i, (i < length cells)%nat -> exists r, nth i cells None = Some r /\ (r < length h)%nat) ->
+  (forall i j r, nth i cells None = Some r -> nth j cells None = Some r -> i = j) ->
+  (p < length cells)%nat ->
+  let '((cells', h'), e) := trace_t_cells num names reset p lab res cells h in
+  (view num cells' h', e) = trace_t_core num names reset p lab res (view num cells h)
+  /\ (forall i, (i < length cells')%nat -> exists r, nth i cells' None = Some r /\ (r < length h')%nat)
+  /\ (forall i j r, nth i cells' None = Some r -> nth j cells' None = Some r -> i = j)
+  /\ length cells' = length cells.
+Proof. exact (cells_refine_traces num names reset p lab res cells h). Qed.
+
 (* through a cell whose Trace is still empty, or with reset=True, trace_t puts a NEW Trace into the cell and writes into
    no existing object *)
 Theorem C17_trace_t_makes_a_fresh_object_when_empty_or_reset (num : Type) names reset p lab res cells (h : theap num) r :
@@ -618,6 +662,8 @@ Print Assumptions C17_linked_submodel_labels.
 Print Assumptions C17_reindex_gives_every_kept_period_its_own_trace.
 Print Assumptions C17_reindex_new_period_raises.
 Print Assumptions C17_reindex_without_the_deepcopy_shared.
+Print Assumptions C17_trace_t_is_its_core.
+Print Assumptions C17_cells_refine_traces.
 Print Assumptions C17_trace_t_makes_a_fresh_object_when_empty_or_reset.
 Print Assumptions C17_copy_gives_every_period_its_own_trace.
 Print Assumptions C17_tracer_init.
